@@ -126,6 +126,7 @@ theorem evalExpr_agree {V} (S : Sem V) (ρ1 ρ2 : Store V) : ∀ (e : Expr),
     unfold evalExpr
     rw [evalExpr_agree S ρ1 ρ2 a (h.mono (fun x hx => by unfold usedVars; exact mem_vunion.mpr (Or.inl hx))),
         evalExpr_agree S ρ1 ρ2 b (h.mono (fun x hx => by unfold usedVars; exact mem_vunion.mpr (Or.inr hx)))]
+  | .subscript base idx, h => by unfold evalExpr; rfl
   | .other us, h => by unfold evalExpr; rfl
 theorem evalExprs_agree {V} (S : Sem V) (ρ1 ρ2 : Store V) : ∀ (es : List Expr),
     Agree (usedVarsL es) ρ1 ρ2 → evalExprs S ρ1 es = evalExprs S ρ2 es
